@@ -498,10 +498,10 @@ def _run(ctx, q, stage, env, tbl, pts):
     # ---- 2c. classification
     if stage("classify"):
         syms_all = [s for s, _ in nets.networks()]
-        for cfg in (["MC_Classify_q", "MC_Classify_nq"] if q else ["MC_Classify_t", "MC_Classify_nt"]):
-            st = _Streamer(_cls_chunk, ["BTC"])
+        neigh = []
+        for cfg in (["MC_Classify_m", "MC_Classify_q", "MC_Classify_nq"] if q else ["MC_Classify_m", "MC_Classify_t", "MC_Classify_nt"]):
+            st = _Streamer(_cls_chunk, ["BTC"] if cfg != "MC_Classify_m" else ["BTC", "BCH", "LTC", "DOGE"])
             cnt = [0]
-            neigh = []
 
             def on(rec, st=st, cnt=cnt, cfg=cfg, neigh=neigh):
                 if rec.get("k") == "cls":
